@@ -30,6 +30,7 @@ KINDS = [
     ('and', 'N', ('N', 'N')), ('or', 'N', ('N', 'N')), ('in', 'N', ('N', 'C')), ('notin', 'N', ('N', 'C')),
     ('neg', 'N', ('N',)), ('not', 'N', ('N',)), ('if', 'N', ('N', 'N', 'N')),            # (then, cond, else) in source order
     ('call0', 'N', ()), ('call1', 'N', ('N',)), ('call2', 'N', ('N', 'N')), ('call3', 'N', ('N', 'N', 'N')),
+    ('ucall1', 'N', ('N',)), ('ucall2', 'N', ('N', 'N')), ('umeth1', 'N', ('N',)), ('gt', 'N', ('N', 'N')),
     ('meth1', 'N', ('N',)), ('meth2', 'N', ('N', 'N')), ('pipe1', 'N', ('N',)), ('pipe2', 'N', ('N', 'N')),
     ('list1', 'C', ('N',)), ('list2', 'C', ('N', 'N')), ('dict1', 'N', ('N', 'N')), ('dict2', 'N', ('N', 'N', 'N', 'N')),
     ('idx', 'N', ('C', 'I')), ('sl_ab', 'C', ('C', 'I', 'I')), ('sl_a', 'C', ('C', 'I')), ('sl_b', 'C', ('C', 'I')),
@@ -37,7 +38,7 @@ KINDS = [
 ]
 STMTS = [('assign', ('N',)), ('short', ('N',)), ('setitem', ('C', 'I', 'N')), ('setop', ('C', 'I', 'N')), ('del', ('C', 'I')),
          ('expr', ('N',)), ('exprC', ('C',)), ('shortmul', ('N',)), ('setopmul', ('C', 'I', 'N'))]
-BINSYM = {'add': '+', 'sub': '-', 'mul': '*', 'div': '/', 'pow': '**', 'eq': '==', 'lt': '<', 'ge': '>=', 'and': 'and', 'or': 'or',
+BINSYM = {'gt': '>', 'add': '+', 'sub': '-', 'mul': '*', 'div': '/', 'pow': '**', 'eq': '==', 'lt': '<', 'ge': '>=', 'and': 'and', 'or': 'or',
           'in': 'in', 'notin': 'not in'}
 
 
@@ -95,6 +96,10 @@ def render(sh, ctr, lab=None):
         return f'(not {c[0]})'
     if k.startswith('call'):
         return 'h(' + ', '.join(c) + ')'
+    if k.startswith('ucall'):
+        return 'nosuch9(' + ', '.join(c) + ')'
+    if k == 'umeth1':
+        return f'(({c[0]}).nosuch9())'
     if k == 'meth1':
         return f'(({c[0]}).h())'
     if k == 'meth2':
@@ -212,6 +217,10 @@ def ev(sh, ctr, truth, raises, log, lab=None):
         return v[0] == v[1]
     if k == 'lt':
         return v[0] < v[1]
+    if k == 'gt':
+        return v[0] > v[1]
+    if k in ('ucall1', 'ucall2', 'umeth1'):
+        raise NameError('undefined function')
     if k == 'ge':
         return v[0] >= v[1]
     if k == 'in':
